@@ -7,8 +7,8 @@ HOOKS = {
     "add_only": True,
 }
 ENGINES = [
-    {"name": "pyvc", "path": "pyvc/", "serves_properties": ["C12", "C20"], "kind_free_text": "verification-condition generator: symbolic execution of the real ast.FunctionDef nodes of /repo against sidecar functional contracts, SMT-LIB2 obligations discharged by z3 (cvc5 fallback / cross-check)"},
-    {"name": "tables", "path": "oracle/", "serves_properties": ["C12"], "kind_free_text": "exhaustive evaluation of finite table obligations (live classes vs generator/lsp.json through an independent metamodel oracle)"},
+    {"name": "pyvc", "path": "pyvc/", "serves_properties": ["C01","C02","C03","C10","C11","C12","C13","C14","C15","C20"], "kind_free_text": "verification-condition generator: symbolic execution of the real ast.FunctionDef nodes of /repo against sidecar functional contracts, SMT-LIB2 obligations discharged by z3 (cvc5 fallback / cross-check)"},
+    {"name": "tables", "path": "oracle/", "serves_properties": ["C01","C02","C03","C04","C09","C10","C11","C12","C13"], "kind_free_text": "exhaustive evaluation of finite table obligations (live classes vs generator/lsp.json through an independent metamodel oracle)"},
 ]
 NOTES = "bin/check <ID>: exit 0 held, 1 violation (VIOLATION line + replay file), 2 undecided (solver unknown), 3 checker/assumption broken. See DESIGN.md."
 NOT_APPLICABLE = {}
@@ -26,5 +26,75 @@ CHECKS = {
         "text": "46 lemmas (six operators on Position pairs, Range/Location ==/!=, reprs, comparisons with unrelated objects) are proved for all uinteger fields and all strings by symbolic execution of the real method bodies found in the live class __dict__ under the CPython operator-dispatch rules; z3 discharges every path obligation.",
         "note": "trusted: z3/cvc5, pyvc's model of CPython rich-comparison dispatch and tuple comparison, inspect.getsource for the functools helpers; type invariant of the fields is a precondition. Methods that leave the subset fall back to a bounded native grid (labelled).",
         "design_ref": "DESIGN.md 5/C20",
+    },
+    "C01": {
+        "level": "proof",
+        "technique": "contract-based deductive verification of every union handler (AST->SMT, O0 no-raise / O1 right alternative / O2 nothing lost) + exhaustive class-lemma tables + alias-root table",
+        "text": "every effective union handler (59 hand-written hooks read from their real ast nodes; cattrs default disambiguators read from the live closure) is executed symbolically on a probe-tree abstraction of its JSON input under the precondition 'strictly valid for the metamodel type at the use site'; obligations are discharged by z3 (cvc5 fallback); counter-models are concretised and replayed on the real converter. O2 requires the chosen class to declare every property of the input, so the per-class lemma gives a loss-free round trip by induction on the value; the lemma's leaves (attribute per property, wire names, annotations, omit rule) are evaluated exhaustively; every alias is tried as a root; a bounded root sweep replays the argument natively on every class.",
+        "note": "trusted: z3/cvc5; the pyvc/jsonsym encoder (DESIGN 2.2-2.4) incl. the array (2 explicit + generic element) and object (presence bits + 'some undeclared key') abstractions; cattrs/attrs per-class rows of DESIGN 2.4 (assumed, exercised by native sweeps on every class); the metamodel oracle. Handlers outside the subset fall back to a bounded native input family (labelled).",
+        "design_ref": "DESIGN.md 4, 5/C01",
+    },
+    "C02": {
+        "level": "proof",
+        "technique": "SMT contracts on _omit / is_special_property + exhaustive wire-name / omit / annotation tables on two converters + constructor-path sweep",
+        "text": "The omit decision is proved (for all classes and attribute names) to be non-membership of the qualified name in the special table; the table's extension, the effective wire name of every attribute (read from the overrides the live converter holds, so _to_camel_case is exercised on every committed name) and the annotations are evaluated exhaustively on two converters that met the classes in opposite orders; a constructor-path sweep (normal form, re-structure, re-serialise) replays it on every class.",
+        "note": "trusted: z3/cvc5, pyvc, cattrs unstructure rows (assumed, exercised by the sweep), oracle normal form. _to_camel_case itself is outside the SMT fragment (split/title): decided by exhaustive evaluation on the committed names only.",
+        "design_ref": "DESIGN.md 5/C02",
+    },
+    "C03": {
+        "level": "proof",
+        "technique": "contract-based deductive verification of every union handler (O0/O1: result is an instance of an alternative the input is valid for; no pass-through of objects) + annotation table + typedness sweep",
+        "text": "every effective union handler (59 hand-written hooks read from their real ast nodes; cattrs default disambiguators read from the live closure) is executed symbolically on a probe-tree abstraction of its JSON input under the precondition 'strictly valid for the metamodel type at the use site'; obligations are discharged by z3 (cvc5 fallback); counter-models are concretised and replayed on the real converter. O1 fails with a concrete shape when a handler returns a raw dict/list where a class is declared or picks a class the input is not valid for; annotations of every attribute are compared with the metamodel mapping (typing ==) and checked free of unresolved references; an isinstance walk over the object graph of every class root replays it natively.",
+        "note": "trusted: z3/cvc5; the pyvc/jsonsym encoder (DESIGN 2.2-2.4) incl. the array (2 explicit + generic element) and object (presence bits + 'some undeclared key') abstractions; cattrs/attrs per-class rows of DESIGN 2.4 (assumed, exercised by native sweeps on every class); the metamodel oracle. Handlers outside the subset fall back to a bounded native input family (labelled).",
+        "design_ref": "DESIGN.md 4, 5/C03",
+    },
+    "C04": {
+        "level": "proof",
+        "technique": "exhaustive two-directional table comparison of live classes/enums/aliases with the metamodel (finite domain, complete)",
+        "text": "Every structure/enumeration/alias and every flattened property of generator/lsp.json is compared with the live package in both directions: attribute per property (paired by effective wire name), no extra attribute/class, required-iff rule, defaults, annotation under the documented mapping (typing ==), validator per base type, literal default + in_ validator, enum values. The quantifier of C04 is this finite set, so evaluation is complete.",
+        "note": "trusted: the independent metamodel oracle (flattening, mapping), attrs.fields / cattrs overrides as read from live objects, typing equality. Not deduced: the generator functions that produced the table (their decision helpers are C06/C10 work).",
+        "design_ref": "DESIGN.md 5/C04",
+    },
+    "C09": {
+        "level": "proof",
+        "technique": "exhaustive evaluation of the METHOD_TO_TYPES / constants / direction / registry tables against the metamodel (finite, complete)",
+        "text": "95 methods x (message class, response class, params, registration options, default method, constant, direction) plus 'nothing extra', and registry completeness for every name types.py defines, evaluated after import and after the first and second get_converter(); every annotation is free of unresolved references afterwards.",
+        "note": "trusted: oracle derivation of class / constant names from typeName / method; typing equality.",
+        "design_ref": "DESIGN.md 5/C09",
+    },
+    "C10": {
+        "level": "proof",
+        "technique": "SMT contracts on _omit / is_special_property (all classes, all names) + exhaustive per-attribute special/default table on two converters + toggle sweep",
+        "text": "_omit is proved to be the negation of is_special_property, which is proved to be membership of '<Class>.<attr>' in the special table; the table's extension is compared attribute by attribute with the rule of the statement (null-admitting, string literal, envelope method/jsonrpc/result) through the omit_if_default the live converter actually holds, in both class orders; defaults give the parsing half; each attribute is toggled on a concrete instance as replay.",
+        "note": "trusted: z3/cvc5, pyvc, cattrs omit_if_default row (assumed, exercised by the toggle sweep), oracle rule.",
+        "design_ref": "DESIGN.md 5/C10",
+    },
+    "C11": {
+        "level": "proof",
+        "technique": "SMT proof of both range validators + real-arithmetic lemma on int() coercion + exhaustive attachment tables + frame condition on hooks + exhaustive single-edit sweep",
+        "text": "Rejection of each of the four edits is reduced to attachment facts evaluated for every eligible property (no default; proved range validator; exact enum annotation; in_([literal]) validator) plus assumed cattrs rows; the coercion lemma over the reals is discharged by z3 and fails exactly for non-integral numbers within 1 of a bound (recorded finding); union hooks must not call outside their frame (symbolic execution reports any other call); every eligible (class, property, edit) is applied to a minimal and a maximal instance, twice, as replay.",
+        "note": "trusted: z3/cvc5, pyvc, cattrs/attrs rows (missing key, Enum(v), validators run by the constructor), surrounding value of the sweep is bounded.",
+        "design_ref": "DESIGN.md 5/C11",
+    },
+    "C13": {
+        "level": "proof",
+        "technique": "exhaustive enum tables + union-handler contract at every open-enum position (O0/O1 pass-through; O4 closed enum inside a union is not passed through unchecked) + use-site sweep",
+        "text": "40 enumerations x values (none missing/added/altered; member-name count = metamodel value count); handlers at open-enum positions are proved to pass every value of the base type through; handlers whose union contains a closed enumeration are proved not to pass a non-member through unchecked; closed enumerations are annotated with exactly the enum class; every use site x every declared value x custom values is replayed natively.",
+        "note": "trusted: z3/cvc5; the pyvc/jsonsym encoder (DESIGN 2.2-2.4) incl. the array (2 explicit + generic element) and object (presence bits + 'some undeclared key') abstractions; cattrs/attrs per-class rows of DESIGN 2.4 (assumed, exercised by native sweeps on every class); the metamodel oracle. Handlers outside the subset fall back to a bounded native input family (labelled).",
+        "design_ref": "DESIGN.md 5/C13",
+    },
+    "C14": {
+        "level": "proof",
+        "technique": "dispatch-table evaluation on a live converter + contract-based deductive verification of every effective union handler (O0 no raise, O1 right alternative, per-alternative cover)",
+        "text": "every effective union handler (59 hand-written hooks read from their real ast nodes; cattrs default disambiguators read from the live closure) is executed symbolically on a probe-tree abstraction of its JSON input under the precondition 'strictly valid for the metamodel type at the use site'; obligations are discharged by z3 (cvc5 fallback); counter-models are concretised and replayed on the real converter. A union position whose effective handler is cattrs' raise_error is a violation with a concrete input; for every other position O0 and O1 are proved for all strictly valid inputs, and each alternative is shown satisfiable as a precondition.",
+        "note": "trusted: z3/cvc5; the pyvc/jsonsym encoder (DESIGN 2.2-2.4) incl. the array (2 explicit + generic element) and object (presence bits + 'some undeclared key') abstractions; cattrs/attrs per-class rows of DESIGN 2.4 (assumed, exercised by native sweeps on every class); the metamodel oracle. Handlers outside the subset fall back to a bounded native input family (labelled).",
+        "design_ref": "DESIGN.md 4, 5/C14",
+    },
+    "C15": {
+        "level": "proof",
+        "technique": "two-run (relational) SMT obligation per pair of handler paths: inputs agreeing on everything but undeclared keys reach the same outcome; call-site scan for forbid_extra_keys; extras sweep",
+        "text": "For every union handler and every pair of paths with different outcomes, z3 shows that no two inputs that agree on all declared keys (and differ arbitrarily on keys no alternative declares, at every expanded level) can take the two paths; the precondition of the assumed cattrs 'extra keys ignored' row (forbid_extra_keys never passed) is scanned; extras at every object node of valid values of every class are replayed natively.",
+        "note": "trusted: z3/cvc5; the pyvc/jsonsym encoder (DESIGN 2.2-2.4) incl. the array (2 explicit + generic element) and object (presence bits + 'some undeclared key') abstractions; cattrs/attrs per-class rows of DESIGN 2.4 (assumed, exercised by native sweeps on every class); the metamodel oracle. Handlers outside the subset fall back to a bounded native input family (labelled).",
+        "design_ref": "DESIGN.md 4, 5/C15",
     },
 }
